@@ -230,7 +230,7 @@ class Recon:
                 entry = [self._def(ctx, d, binds, depth + 1) for d in outside]
                 entry = _dedup(entry)
                 e = entry[0] if len(entry) == 1 else ("join", tuple(sorted(entry, key=repr)))
-                return ("phi", ctx.qual, ctx.loop_ordinal(loop), e)
+                return ("phi", ctx.qual, ctx.loop_ordinal(loop), e, name)
         gated = self._gate(ctx, [(d.stmt, d) for d in defs if d.stmt is not None], ctx.func,
                            lambda d: self._def(ctx, d, binds, depth + 1), binds, depth) if all(d.stmt is not None for d in defs) else None
         if gated is not None:
@@ -674,6 +674,10 @@ class Recon:
             return self._ctype_call(ctx, node, f[1], S.C(1), args, kws)
         if f[0] == "arrtype":
             return self._ctype_call(ctx, node, f[1], f[2], args, kws)
+        if f[0] == "sub" and all(S.is_const(a) and isinstance(a[1], CType) for a in S.alternatives(f[1])):
+            # array type chosen at run time: (uint32 | uint64)[n](handle)
+            site = ("site", ctx.qual, self._read_site_ordinal(ctx, node))
+            return ("read", f[1], f[2], args[0] if args else S.C(None), site)
         if f[0] == "call":
             # call of a call result, e.g. lru_cache(128)(self.f)
             return S.call("(" + S.show(f) + ")", args, kws)
